@@ -14,5 +14,5 @@
 Definition fix_hex_helper : bool := true.   (* fixes/C20-hex-helper-length.patch *)
 Definition fix_ba_cmp : bool := true.       (* fixes/C20-bytearray-cmp-sign.patch *)
 Definition fix_ba_resize : bool := true.    (* fixes/C20-bytearray-resize-detach.patch *)
-Definition fix_ba_index : bool := false.    (* fixes/C20-subscript-detach.patch: operator[] (both overloads) and pop_back detach only a shared block *)
+Definition fix_ba_index : bool := true.    (* fixes/C20-subscript-detach.patch: operator[] (both overloads) and pop_back detach only a shared block *)
 Definition fix_ba_leak : bool := false.     (* fixes/C20-bytearray-unshare-leaked.patch: a block whose data pointer / element reference was handed out is never shared *)
